@@ -72,6 +72,8 @@ def one(rec, hub, seed, tier, i):
             drv = s.stock if type(s).__name__ == "StockDrivenDSM" else s.inflow
             drv.values[...] = 0
             s.compute()
+        if hasattr(s, "lifetime_model") and rng.random() < 0.25 and len(cfg["items"]) <= 60:
+            dsm.refused_then_corrected(hub, s, cfg, rng)
         if hasattr(s, "lifetime_model") and rng.random() < 0.4:
             # same objects, other parameters: the identities must hold for the recomputed stock as well
             lm = s.lifetime_model
